@@ -5,9 +5,12 @@ package main
 // breaks the checks that depend on it (name "cNN" belongs to property CNN; a
 // property config may list more under "gens").
 func extraGens() {
+	runGen("c06", genC06)
+	runGen("c17", genC17)
 	runGen("c10", genC10)
 	runGen("c03", genC03)
 	runGen("c15", genC15)
 	runGen("c12", genC12)
 	runGen("c18", genC18)
+	runGen("c16", genC16)
 }
